@@ -49,6 +49,7 @@ static void gen_data(u8* p, size_t n, int kind)
     case D_FARMATCH: /* random data whose second part repeats content close to 64 KB earlier */
         for (i = 0; i < n; i++) p[i] = (u8)rnd();
         if (n > 66000) { size_t at = 65536 + rndn((u32)(n - 65900)); int delta = rndr(-3, 3); size_t d = (size_t)(65535 + delta); size_t l = 20 + rndn(200);
+            if (rndp(50)) at = d;   /* the repeat sits exactly one window after the very first byte */
             if (at >= d) for (i = 0; i < l && at + i < n; i++) p[at + i] = p[at + i - d]; }
         break;
     case D_TAILMATCH: /* a repeat that would run into the last 12/13 bytes */
